@@ -1,6 +1,6 @@
 """sitecustomize.py — active only while the marker file .scratch/cov/ENABLED exists (created and removed by
 tools/coverage_report.sh): lets that script measure which lines / branches of /repo/src/eascheduler the
-implementation-side harness subprocesses exercise.  A measurement of the correspondence's reach (DESIGN.md 11.7);
+implementation-side harness subprocesses exercise.  A measurement of the correspondence's reach (DESIGN.md 11.5b);
 never part of a verdict; without the marker this file does nothing."""
 import os
 
